@@ -1,6 +1,7 @@
 /- Handlers for C09 / C12: every creator of a polynomial, scripted tape. -/
 import Driver.OpsH
 import NflVerif.Model.Samplers
+import NflVerif.Model.SamplersFast
 import NflVerif.Spec.SamplersSpec
 namespace Driver
 open Nfl Nfl.Samplers Nfl.Spec.Samplers
@@ -10,27 +11,33 @@ def moduliOf_SamplersH (w nm : Nat) : Option (List Nat) := do
   let t ← tabOf w
   if nm ≤ t.rows.size then some ((t.rows.toList.take nm).map (·.p)) else none
 
-def takeReq : Nat → List Int → Option (List Nat × List Int)
-  | 0, rest => some ([], rest)
-  | k + 1, b :: rest => do
-    if b < 0 ∨ b > 255 then none
-    let (bs, r) ← takeReq k rest
-    some (b.toNat :: bs, r)
-  | _ + 1, [] => none
+/-- `<#req> (<len> <units…>)…` starting at `a[pos]`; a unit is a byte (`unitBytes = 1`) or a little-endian word of
+`unitBytes` bytes (expanded to its bytes: the model's tape is a byte tape); nothing may be left over.  Loops over
+an array: requests of 10^6 bytes and tapes of 10^5 requests are parsed without recursion. -/
+def parseTapeA (a : Array Int) (pos unitBytes : Nat) : Option Tape := do
+  if pos ≥ a.size then none
+  let nreq := (a.getD pos 0).toNat
+  if nreq > a.size then none
+  let mut p := pos + 1
+  let mut reqs : Array (List Nat) := Array.mkEmpty nreq
+  for _ in [0:nreq] do
+    if p ≥ a.size then none
+    let len := (a.getD p 0).toNat
+    if p + 1 + len > a.size then none
+    let mut bs : Array Nat := Array.mkEmpty (len * unitBytes)
+    for j in [0:len] do
+      let v := a.getD (p + 1 + j) 0
+      if v < 0 ∨ v ≥ (256 : Int) ^ unitBytes then none
+      let mut x := v.toNat
+      for _ in [0:unitBytes] do
+        bs := bs.push (x % 256)
+        x := x / 256
+    reqs := reqs.push bs.toList
+    p := p + 1 + len
+  if p ≠ a.size then none
+  some reqs.toList
 
-/-- `<#req> (<len> <bytes…>)…` → the tape; nothing may be left over -/
-def parseTape : Nat → List Int → Option Tape
-  | 0, [] => some []
-  | 0, _ :: _ => none
-  | k + 1, len :: rest => do
-    let (bs, r) ← takeReq len.toNat rest
-    let t ← parseTape k r
-    some (bs :: t)
-  | _ + 1, [] => none
-
-def tapeOf : List Int → Option Tape
-  | nreq :: rest => parseTape nreq.toNat rest
-  | [] => none
+def tapeOf (l : List Int) : Option Tape := parseTapeA l.toArray 0 1
 
 def flat_SamplersH (o : Poly) : List Int := (o.flatMap id).map Int.ofNat
 def flatO : Option Poly → List Int
@@ -61,12 +68,264 @@ def clsHd (h : Hd) : String := s!"w{h.w}:n{h.n}x{h.nm}:via{h.via}"
 compared with the implementation's) -/
 def clsExcluded (h : Hd) (why : String) (o : List Int) : String :=
   match implNat o with
-  | some out => s!"w{h.w}:EXCLUDED({why}):" ++ (if canonical h.n h.ps out then "canonical" else "NONCANONICAL")
+  | some out => s!"w{h.w}:EXCLUDED({why}):" ++ (if canonicalA h.n h.ps out.toArray then "canonical" else "NONCANONICAL")
   | none => s!"w{h.w}:EXCLUDED({why}):throws"
 
 def bndAdmissible (ps : List Nat) (B A : Nat) : Bool := decide (1 ≤ B) && decide (1 ≤ A) && ps.all fun p => decide (B < p) && decide (A * (B - 1) < p)
 
 def absMax (l : List Int) : Nat := l.foldl (fun m v => max m v.natAbs) 0
+
+/-! ### fixed weight: run / spec / explanation -/
+
+structure HwtArgs where
+  hd : Hd
+  hw : Nat
+  tape : Tape
+
+def hwtArgs (unitBytes : Nat) (a : List Int) : Option HwtArgs := do
+  let h ← hd a
+  match h.rest with
+  | hw :: t =>
+    let tape ← parseTapeA t.toArray 0 unitBytes
+    some { hd := h, hw := hw.toNat, tape := tape }
+  | _ => none
+
+/-- the 64-bit words of the position phase, in order: every request but the last (the sign request) -/
+def hwtWords (x : HwtArgs) : List Nat :=
+  (x.tape.dropLast.map fun r => words64A (r.length / 8) r.toArray).flatten
+
+def showWord (x : Nat) : String :=
+  if x + 2 ^ 20 ≥ 2 ^ 64 ∧ x < 2 ^ 64 then s!"2^64-{2 ^ 64 - x}" else toString x
+
+/-- coverage class of a fixed-weight line, from the exact-rejection run of its words: how many words fall in a
+rejection zone, whether one does at a step `k ≥ 2^16`, and whether one is rejected although it lies more than 2^16
+below the top of the range (`far`: the incomplete block of that step is longer than 2^16 words) -/
+def hwtCls (x : HwtArgs) : String := Id.run do
+  let mut k := x.hw
+  let mut rej := 0
+  let mut late := false
+  let mut far := false
+  let mut lastAcc := false
+  for w in hwtWords x do
+    if k ≥ x.hd.n then break
+    if specAccept k w then
+      if w + 1 == rejThreshold k then lastAcc := true
+      k := k + 1
+    else
+      rej := rej + 1
+      if k ≥ 2 ^ 16 then late := true
+      if w + 2 ^ 16 < 2 ^ 64 then far := true
+  let b := if rej = 0 then "rej0" else if rej < 10 then "rej<10" else if rej < 100 then "rej<100" else "rej>=100"
+  return s!":{b}" ++ (if lastAcc then ":M-1" else "") ++ (if late then ":rej@k>=2^16" else "") ++ (if far then ":rej-far-from-top" else "")
+
+def hwtRun (unitBytes : Nat) (a : List Int) : Option Verdict := do
+  let x ← hwtArgs unitBytes a
+  let h := x.hd
+  -- every request must be `h` words of 8 bytes (the code reads `h` `size_t` words from the buffer after each request)
+  if x.tape.any (fun r => r.length ≠ x.hw * 8) then
+    some { model := [-2], specOk := true, cls := s!"w{h.w}:n{h.n}:h{x.hw}:REQUEST-SIZE(a request is not 8h bytes)" }
+  else
+  let cls := s!"w{h.w}:n{h.n}:h{x.hw}" ++ (if h.n > 64 then hwtCls x else "")
+  match hwtPositionsFast x.hw h.n x.tape with
+  | some (_, rest) =>
+    -- nothing but the sign request follows the positions phase
+    if rest.length ≠ 1 then
+      some { model := [-2], specOk := true, cls := cls ++ ":TAPE-MISMATCH(requests after the sign request / none)" }
+    else
+      some { model := flatO (setHwtFast h.w h.n h.ps x.hw x.tape), specOk := true,
+             cls := cls ++ (if x.tape.length > (h.n - x.hw + x.hw - 1) / x.hw + 1 then ":extra-request" else "") }
+  | none => some { model := [-2], specOk := true, cls := cls ++ ":TAPE-MISMATCH(the model needs more words than were requested)" }
+
+def sortNat (l : List Nat) : List Nat := l.mergeSort fun a b => decide (a ≤ b)
+
+def hwtBase (x : HwtArgs) (oa : Array Nat) : Bool :=
+  let h := x.hd
+  let s0 := supportA h.n oa 0
+  canonicalA h.n h.ps oa && crtConsistentA h.n h.ps oa 1 (fun _ => true) && decide (s0.length = x.hw) &&
+    (List.range h.nm).all fun cm => supportA h.n oa cm == s0
+
+/-- words are fetched `h` at a time and only when one is needed: the number of position-phase requests that were
+served must be the number the exact-rejection run needs for the words it consumes (more: acceptable words were
+skipped; fewer is already a position failure) -/
+def hwtRequestsOk (x : HwtArgs) : Bool :=
+  let r := specRun x.hw x.hd.n (hwtWords x) 0 x.hw (Array.range x.hw) []
+  x.hw > 0 && (r.2.2 + x.hw - 1) / x.hw + 1 == x.tape.length
+
+def hwtSpecBase (unitBytes : Nat) (a : List Int) (impl : List Int) : Option Bool := do
+  let x ← hwtArgs unitBytes a
+  let out ← implNat impl
+  some (hwtBase x out.toArray)
+
+def hwtSpecV (unitBytes : Nat) (a : List Int) (impl : List Int) : Option Bool := do
+  let x ← hwtArgs unitBytes a
+  let out ← implNat impl
+  let oa := out.toArray
+  -- weight exactly h, ±1, same positions for every modulus, AND the positions are those of the reservoir run with
+  -- exact rejection over the words that were served (uniform index at every step, see `specRun`)
+  some (hwtBase x oa && x.tape.all (fun r => r.length == x.hw * 8) &&
+        specPositions x.hw x.hd.n (hwtWords x) == some (supportA x.hd.n oa 0) && hwtRequestsOk x)
+
+/-- number of elements that are in exactly one of two ascending lists -/
+def symDiff : List Nat → List Nat → Nat → Nat → Nat
+  | [], l, acc, _ => acc + l.length
+  | l, [], acc, _ => acc + l.length
+  | a :: l, b :: m, acc, fuel + 1 =>
+    if a = b then symDiff l m acc fuel
+    else if a < b then symDiff l (b :: m) (acc + 1) fuel
+    else symDiff (a :: l) m (acc + 1) fuel
+  | _, _, acc, 0 => acc
+
+structure Cand where
+  t : Nat
+  k : Nat
+  x : Nat
+  rejected : Bool      -- decision of the exact rule on this word (the explanation inverts it)
+deriving Inhabited
+
+/-- the words whose decision could plausibly be inverted, met by the run that already inverts `flips`: every
+rejected word, and every accepted word of the LAST complete block (`x ≥ M_k - (k+1)`), after word index `after` -/
+def hwtCands (h n : Nat) (ws : List Nat) (flips : List Nat) (after : Option Nat) : Array Cand := Id.run do
+  let mut k := h
+  let mut t := 0
+  let mut fl := flips
+  let mut cs : Array Cand := #[]
+  for x in ws do
+    if k ≥ n then break
+    let flip := fl.head? == some t
+    if flip then fl := fl.tail
+    let acc := specAccept k x
+    let later := match after with | some a => t > a | none => true
+    if later && !flip then
+      if !acc then cs := cs.push { t := t, k := k, x := x, rejected := true }
+      else if x + (k + 1) ≥ rejThreshold k then cs := cs.push { t := t, k := k, x := x, rejected := false }
+    if acc != flip then k := k + 1
+    t := t + 1
+  return cs
+
+def describeCand (c : Cand) : String :=
+  if c.rejected then
+    s!"word {showWord c.x} >= M_k={showWord (rejThreshold c.k)} ACCEPTED at step k={c.k} (position-phase word #{c.t}): index not uniform on [0,k] ({2 ^ 64 - rejThreshold c.k} words of the incomplete top block [M_k,2^64) must be rejected, else indices 0..{2 ^ 64 - 1 - rejThreshold c.k} get an extra pre-image)"
+  else
+    s!"word {showWord c.x} < M_k={showWord (rejThreshold c.k)} REJECTED at step k={c.k} (position-phase word #{c.t}): index {c.x % (c.k + 1)} of [0,k] loses a pre-image"
+
+/-- the explanation's run (`specRun` with inverted decisions `flips`) that also remembers, for every position `v ≥ h`
+it stored and later overwrote, the step at which it overwrote it (`ov[v]`, 0 = still there / never stored); also the
+step reached and the number of words consumed -/
+def diagRun (h n : Nat) (ws : List Nat) (flips : List Nat) : Array Nat × Array Nat × Nat × Nat := Id.run do
+  let mut k := h
+  let mut t := 0
+  let mut fl := flips
+  let mut hit := Array.range h
+  let mut ov := Array.replicate (n + 1) 0
+  for x in ws do
+    if k ≥ n then break
+    let flip := fl.head? == some t
+    if flip then fl := fl.tail
+    if specAccept k x != flip then
+      let pos := x % (k + 1)
+      if pos < h then
+        let old := hit.getD pos 0
+        if old ≥ h then ov := ov.setIfInBounds old k
+        hit := hit.setIfInBounds pos k
+      k := k + 1
+    t := t + 1
+  return (hit, ov, k, t)
+
+/-- the earliest step by which the explanation `O` (ascending; `ov` as in `diagRun`) is known to deviate from the
+implementation's positions `S` (ascending): a position `v ≥ h` is stored at step `v` only, so if the implementation has
+`v` and the explanation never stored it, they part at or before step `v`; if the explanation stored and later
+overwrote it, at or before that overwrite.  Positions the implementation LOST say nothing about when. -/
+def firstMissing (h : Nat) (ov : Array Nat) : (O S : List Nat) → Nat → Option Nat → Option Nat
+  | _, [], _, acc => acc
+  | [], b :: m, fuel + 1, acc => firstMissing h ov [] m fuel (if b ≥ h then some (min (acc.getD (2 ^ 64)) (if ov.getD b 0 ≠ 0 then ov.getD b 0 else b)) else acc)
+  | a :: l, b :: m, fuel + 1, acc =>
+    if a = b then firstMissing h ov l m fuel acc
+    else if a < b then firstMissing h ov l (b :: m) fuel acc
+    else firstMissing h ov (a :: l) m fuel (if b ≥ h then some (min (acc.getD (2 ^ 64)) (if ov.getD b 0 ≠ 0 then ov.getD b 0 else b)) else acc)
+  | _, _, 0, acc => acc
+
+/-- score of an explanation: (step up to which the positions are explained, remaining disagreement).  The
+disagreement counts the positions in exactly one of the two sets AND the difference between the number of requests
+that were served and the number the explanation's run needs (words are fetched `h` at a time, when needed). -/
+def hwtScore (h n nreq : Nat) (r : Array Nat × Array Nat × Nat × Nat) (S : List Nat) (fuel : Nat) : Nat × Nat :=
+  let O := sortNat r.1.toList
+  let need := (r.2.2.2 + h - 1) / h + 1
+  let dreq := (if need ≥ nreq then need - nreq else nreq - need) + (if r.2.2.1 < n then 1 else 0)
+  if O == S && dreq == 0 then (n + 1, 0)
+  else match firstMissing h r.2.1 O S fuel none with
+    | none => (n, symDiff O S 0 fuel + dreq)
+    | some v => (v, symDiff O S 0 fuel + dreq)
+
+/-- `b` explains strictly more than `a`: up to a later step (when no step is known, `= n`: less disagreement) -/
+def scoreLt (n : Nat) (a b : Nat × Nat) : Bool := a.1 < b.1 || (a.1 == n && b.1 == n && a.2 > b.2)
+
+/-- explanation of a failing fixed-weight line: greedy search, in tape order, for the inverted accept/reject
+decisions that turn the exact-rejection run into the implementation's positions.  Each round takes the single
+inversion after which the positions are explained up to the LATEST step (ties: least remaining disagreement). -/
+def hwtWhy (unitBytes : Nat) (a : List Int) (impl : List Int) : String :=
+  match hwtArgs unitBytes a, implNat impl with
+  | some x, some out => Id.run do
+    let oa := out.toArray
+    let h := x.hw
+    let n := x.hd.n
+    if !hwtBase x oa then
+      return s!"not exactly h={h} coefficients ±1 at one position set for every modulus (weight seen: {(supportA n oa 0).length})"
+    match (x.tape.zipIdx.find? fun r => r.1.length != h * 8) with
+    | some (r, i) =>
+      return s!"request #{i} (of {x.tape.length}) asks for {r.length} bytes, but h={h} size_t words = {h * 8} bytes are read from the buffer after each request: the words beyond byte {r.length} are not fresh (they still hold words consumed earlier), so a random word influences more than one decision (positions and signs are not independent)"
+    | none => pure ()
+    let S := supportA n oa 0
+    let ws := hwtWords x
+    let run := fun (fl : List Nat) => specRun h n ws 0 h (Array.range h) fl
+    let reqNote := if specPositions h n ws == some S && !hwtRequestsOk x then
+      s!"{x.tape.length - 1} position-phase request(s) of {h} words were served, the exact-rejection run needs {((run []).2.2 + h - 1) / h} for the {(run []).2.2} words it consumes: the implementation skipped words that must be accepted (or fetched words it did not need); " else ""
+    let score := fun (fl : List Nat) => hwtScore h n x.tape.length (diagRun h n ws fl) S (2 * h + 2)
+    let r0 := run []
+    let short := if r0.2.1 < n then s!" [the requested words end at step {r0.2.1} < n of the exact run: fewer words were consumed]" else ""
+    let mut flips : List Nat := []
+    let mut found : Array Cand := #[]
+    let mut sc := score []
+    let sc0 := sc
+    let mut ties0 := 0
+    for round in [0:6] do
+      if sc.1 > n then break
+      -- a deviation happened at or before step `sc.1`; many candidates (random tapes): the 48 latest of them
+      let cs := (hwtCands h n ws flips none).filter fun c => c.k ≤ sc.1 + 1
+      let cs := if cs.size ≤ 400 then cs else cs.extract (cs.size - 24) cs.size
+      let mut best : Option (Cand × (Nat × Nat)) := none
+      let mut ties := 0
+      for c in cs do
+        let s' := score (sortNat (flips ++ [c.t]))
+        if scoreLt n sc s' then
+          match best with
+          | some (_, sb) =>
+            if scoreLt n sb s' then
+              best := some (c, s')
+              ties := 1
+            else if sb == s' then ties := ties + 1
+          | none =>
+            best := some (c, s')
+            ties := 1
+      match best with
+      | none => break
+      | some (c, s') =>
+        if round = 0 then ties0 := ties
+        if ties > 1 then break      -- not identifiable: do not name a word
+        flips := sortNat (flips ++ [c.t])
+        found := found.push c
+        sc := s'
+    if found.isEmpty then
+      let O := sortNat r0.1.toList
+      let fd := (O.zip S).find? fun p => p.1 != p.2
+      let amb := if ties0 > 1 then s!"{ties0} different single inverted accept/reject decisions would explain equally much (weight h={h} keeps too few positions to pin the word)"
+                 else "no single inverted accept/reject decision explains more of it"
+      return s!"{reqNote}positions vs the reservoir run with exact rejection: |symmetric difference|+|request difference|={sc0.2}; first difference: exact run {fd.map (·.1)}, implementation {fd.map (·.2)}; {amb}{short}"
+    else
+      let how := if sc.1 > n then s!"{found.size} inverted decision(s) explain the implementation's positions EXACTLY"
+                 else s!"first {found.size} inverted decision(s) found: positions explained up to step {sc.1} (before: {sc0.1}), further deviations remain"
+      return s!"{reqNote}inferred from the positions and the requests served: {describeCand found[0]!}; {how}" ++
+        (if found.size > 1 then "; next: " ++ ", ".intercalate ((found.toList.drop 1).take 3 |>.map fun c => s!"{showWord c.x} {if c.rejected then "accepted" else "rejected"} at k={c.k}") else "") ++ short
+  | _, _ => ""
 
 def samplersHandlersP : List (String × PHandler) := [
   ("umask", {
@@ -77,11 +336,11 @@ def samplersHandlersP : List (String × PHandler) := [
       let h ← hd a
       let tape ← tapeOf h.rest
       if tape.map List.length ≠ uniformRequests h.w h.n h.nm then none
-      some { model := flat_SamplersH (setUniform h.w h.n h.ps tape), specOk := true, cls := clsHd h },
+      some { model := flat_SamplersH (setUniformFast h.w h.n h.ps tape), specOk := true, cls := clsHd h },
     spec := fun a impl => do
       let h ← hd a
       let out ← implNat impl
-      some (canonical h.n h.ps out) }),
+      some (canonicalA h.n h.ps out.toArray) }),
   ("bnd", {
     run := fun a => do
       let h ← hd a
@@ -89,7 +348,7 @@ def samplersHandlersP : List (String × PHandler) := [
       | B :: A :: t =>
         let (B, A) := (B.toNat, A.toNat)
         let tape ← tapeOf t
-        let m := setBounded h.w h.n h.ps B A tape
+        let m := setBoundedFast h.w h.n h.ps B A tape
         if tape.map List.length ≠ (if m.isSome then boundedRequests h.w h.n else []) then none
         let adm := bndAdmissible h.ps B A
         some { model := flatO m, specOk := true,
@@ -107,8 +366,9 @@ def samplersHandlersP : List (String × PHandler) := [
           let out ← implNat impl
           if h.ps.any fun p => decide (B ≥ p) then some false   -- the code must throw
           else if bndAdmissible h.ps B A then
-            some (canonical h.n h.ps out &&
-                  crtConsistent h.n h.ps out (A * (B - 1)) (fun v => decide (v % (A : Int) = 0)))
+            let oa := out.toArray
+            some (canonicalA h.n h.ps oa &&
+                  crtConsistentA h.n h.ps oa (A * (B - 1)) (fun v => decide (v % (A : Int) = 0)))
           else some true
       | _ => none }),
   ("gau", {
@@ -128,7 +388,9 @@ def samplersHandlersP : List (String × PHandler) := [
       match h.rest with
       | amp :: noise =>
         if h.ps.all fun p => decide (absMax noise * amp.toNat < p) then
-          some (canonical h.n h.ps out && encodes h.n h.ps out (fun i => noise.getD i 0 * amp))
+          let oa := out.toArray
+          let na := noise.toArray
+          some (canonicalA h.n h.ps oa && encodesA h.n h.ps oa (fun i => na.getD i 0 * amp))
         else some true
       | _ => none }),
   ("zo", {
@@ -138,7 +400,7 @@ def samplersHandlersP : List (String × PHandler) := [
       | rho :: t =>
         let tape ← tapeOf t
         if tape.map List.length ≠ zoRequests h.n then none
-        some { model := flat_SamplersH (setZO h.w h.n h.ps rho.toNat tape), specOk := true, cls := s!"w{h.w}:n{h.n}x{h.nm}" }
+        some { model := flat_SamplersH (setZOFast h.w h.n h.ps rho.toNat tape), specOk := true, cls := s!"w{h.w}:n{h.n}x{h.nm}" }
       | _ => none,
     spec := fun a impl => do
       let h ← hd a
@@ -146,33 +408,16 @@ def samplersHandlersP : List (String × PHandler) := [
       match h.rest with
       | rho :: t =>
         let tape ← tapeOf t
-        let req := tape.headD []
-        some (canonical h.n h.ps out && encodes h.n h.ps out (fun i => zoSpec rho.toNat (req.getD i 0)))
+        let req := (tape.headD []).toArray
+        let oa := out.toArray
+        some (canonicalA h.n h.ps oa && encodesA h.n h.ps oa (fun i => zoSpec rho.toNat (req.getD i 0)))
       | _ => none }),
-  ("hwt", {
-    run := fun a => do
-      let h ← hd a
-      match h.rest with
-      | hw :: t =>
-        let tape ← tapeOf t
-        -- every request is `h` words of 8 bytes; nothing but the sign request follows the positions phase
-        if tape.any (fun r => r.length ≠ hw.toNat * 8) then none
-        match hwtPositions hw.toNat h.n tape with
-        | some (_, rest) =>
-          if rest.length ≠ 1 then none
-          some { model := flatO (setHwt h.w h.n h.ps hw.toNat tape), specOk := true,
-                 cls := s!"w{h.w}:n{h.n}:h{hw}" ++ (if tape.length > (h.n - hw.toNat + hw.toNat - 1) / hw.toNat + 1 then ":extra-request" else "") }
-        | none => none
-      | _ => none,
-    spec := fun a impl => do
-      let h ← hd a
-      let out ← implNat impl
-      match h.rest with
-      | hw :: _ =>
-        let s0 := support h.n out 0
-        some (canonical h.n h.ps out && crtConsistent h.n h.ps out 1 (fun _ => true) && decide (s0.length = hw.toNat) &&
-              (List.range h.nm).all fun cm => support h.n out cm == s0)
-      | _ => none }),
+  ("hwt", { run := fun a => hwtRun 1 a, spec := fun a impl => hwtSpecV 1 a impl, why := fun a impl => hwtWhy 1 a impl }),
+  -- the same lines as C09 judges them (canonical, ±1 consistently for every modulus, weight h): WHICH positions is C12's statement
+  ("hwt9", { run := fun a => hwtRun 1 a, spec := fun a impl => hwtSpecBase 1 a impl, why := fun a impl => hwtWhy 1 a impl }),
+  ("hwtw9", { run := fun a => hwtRun 8 a, spec := fun a impl => hwtSpecBase 8 a impl, why := fun a impl => hwtWhy 8 a impl }),
+  -- same creator, the tape printed as 64-bit words (large degrees: 8x fewer tokens)
+  ("hwtw", { run := fun a => hwtRun 8 a, spec := fun a impl => hwtSpecV 8 a impl, why := fun a impl => hwtWhy 8 a impl }),
   ("cval", {
     run := fun a => do
       let h ← hd a
